@@ -717,6 +717,8 @@ pub struct VIdentity {
     /// identities (basic credential bytes) this party's application refuses
     pub reject: Arc<Mutex<BTreeSet<Vec<u8>>>>,
     pub fail_next: Arc<AtomicBool>,
+    /// custom credential types this party's application also accepts (identity = the credential's data)
+    pub extra_types: Arc<Mutex<Vec<u16>>>,
 }
 
 impl VIdentity {
@@ -724,6 +726,14 @@ impl VIdentity {
         VIdentity {
             reject: Default::default(),
             fail_next: Default::default(),
+            extra_types: Default::default(),
+        }
+    }
+    /// data of a custom credential of a type this application accepts
+    fn custom(&self, id: &SigningIdentity) -> Option<Vec<u8>> {
+        match &id.credential {
+            mls_rs::identity::Credential::Custom(c) if self.extra_types.lock().unwrap().contains(&c.credential_type.raw_value()) => Some(c.data.clone()),
+            _ => None,
         }
     }
     fn check(&self, id: &SigningIdentity) -> Result<(), VError> {
@@ -741,6 +751,9 @@ impl IdentityProvider for VIdentity {
 
     fn validate_member(&self, id: &SigningIdentity, t: Option<MlsTime>, ctx: MemberValidationContext<'_>) -> Result<(), VError> {
         self.check(id)?;
+        if let Some(data) = self.custom(id) {
+            return if data.is_empty() { Err(VError("empty custom credential".into())) } else { Ok(()) };
+        }
         BasicIdentityProvider.validate_member(id, t, ctx).map_err(|e| VError(format!("{e:?}")))
     }
     fn validate_external_sender(&self, id: &SigningIdentity, t: Option<MlsTime>, ext: Option<&ExtensionList>) -> Result<(), VError> {
@@ -748,12 +761,20 @@ impl IdentityProvider for VIdentity {
         BasicIdentityProvider.validate_external_sender(id, t, ext).map_err(|e| VError(format!("{e:?}")))
     }
     fn identity(&self, id: &SigningIdentity, ext: &ExtensionList) -> Result<Vec<u8>, VError> {
+        if let Some(data) = self.custom(id) {
+            return Ok(data);
+        }
         BasicIdentityProvider.identity(id, ext).map_err(|e| VError(format!("{e:?}")))
     }
     fn valid_successor(&self, p: &SigningIdentity, s: &SigningIdentity, ext: &ExtensionList) -> Result<bool, VError> {
+        if let (Some(a), Some(b)) = (self.custom(p), self.custom(s)) {
+            return Ok(a == b);
+        }
         BasicIdentityProvider.valid_successor(p, s, ext).map_err(|e| VError(format!("{e:?}")))
     }
     fn supported_types(&self) -> Vec<CredentialType> {
-        BasicIdentityProvider.supported_types()
+        let mut v = BasicIdentityProvider.supported_types();
+        v.extend(self.extra_types.lock().unwrap().iter().map(|t| CredentialType::new(*t)));
+        v
     }
 }
